@@ -343,7 +343,7 @@ def rich_file(rng, nrec=None, nsamples=None, ncontig=None, fields="all", gt=True
             nalt = rng.choice([0, 1, 1, 1, 2, max_alt])
             ref = rand_seq(rng, rng.choice([1, 1, 1, 2, 4]))
             alts = [rand_seq(rng, rng.choice([1, 1, 2, 3])) for _ in range(nalt)]
-            rec = {"contig": ci, "pos": p, "id": rng.choice([None, None, f"rs{p}", f"rs{p};x{ci}"]), "ref": ref, "alt": alts,
+            rec = {"contig": ci, "pos": p, "id": rng.choice([None, None, f"rs{p}", f"rs{p};x{ci}", f"c{ci}:{p}:A:C,T", f"x{p},y;z,w"]), "ref": ref, "alt": alts,
                    "qual": rng.choice([None, None] + FLOAT_POOL[:8]),
                    "filter": rng.choice([None, [], []] + [[f[0]] for f in filters if f[0] != "PASS"] +
                                         ([[f[0] for f in filters if f[0] != "PASS"][:2]] if len(filters) > 2 else [])),
